@@ -32,6 +32,8 @@ type Options struct {
 	DeprecatedInputs bool
 	// ExecDirectives: directives may also be declared for QUERY / MUTATION / SUBSCRIPTION / FIELD
 	ExecDirectives bool
+	// Cycles: add a mutual cycle of non-null object fields between two object types
+	Cycles bool
 }
 
 type Schema struct {
@@ -493,7 +495,23 @@ func Generate(t *rapid.T, opt Options) *Schema {
 	}
 	nobj := rapid.IntRange(2, max(2, g.opt.MaxTypes-ne-ni-nif)).Draw(t, "nobjects")
 	for i := 0; i < nobj; i++ {
-		g.objects = append(g.objects, &typ{kind: "object", name: g.typeName("object"), desc: g.desc()})
+		name := ""
+		if opt.Hostile && i == 0 && rapid.IntRange(0, 2).Draw(t, "enumcoincidence") == 0 {
+			// a type whose name is an enum's name followed by one of its values: both map to the same
+			// Go identifier (type ColorRed / const ColorRed), which gqlgen de-duplicates
+			e := g.enums[0]
+			v := e.values[0].name
+			cand := e.name + strings.ToUpper(v[:1]) + strings.ToLower(v[1:])
+			if !g.used[cand] && !strings.Contains(cand, "_") {
+				name = cand
+				g.used[name] = true
+				g.feat["type-equals-enum-plus-value"] = true
+			}
+		}
+		if name == "" {
+			name = g.typeName("object")
+		}
+		g.objects = append(g.objects, &typ{kind: "object", name: name, desc: g.desc()})
 	}
 	nun := rapid.IntRange(0, 2).Draw(t, "nunions")
 	for i := 0; i < nun; i++ {
@@ -565,6 +583,13 @@ func Generate(t *rapid.T, opt Options) *Schema {
 		}
 		o.fields = append(o.fields, g.outFields(rapid.IntRange(1, 4).Draw(t, "nobjfields"), avoid)...)
 		o.dirs = g.applyDir("OBJECT")
+	}
+	if opt.Cycles && len(g.objects) >= 2 && rapid.Bool().Draw(t, "cycle") {
+		// a mutual cycle through non-null object fields, two fields one way and one back
+		a, b := g.objects[0], g.objects[1]
+		a.fields = append(a.fields, field{name: "cycFirst", typ: b.name + "!"}, field{name: "cycSecond", typ: b.name + "!"})
+		b.fields = append(b.fields, field{name: "cycBack", typ: a.name + "!"})
+		g.feat["non-null-object-cycle"] = true
 	}
 	// roots
 	query := &typ{kind: "object", name: "Query"}
